@@ -57,7 +57,8 @@ enum {
   REFOSCORE_E_NO_CIPHERTEXT = -12, /* payload shorter than the AEAD tag */
   REFOSCORE_E_AEAD = -13,          /* tag verification failed */
   REFOSCORE_E_PLAINTEXT_MALFORMED = -14, /* decrypted plaintext is not code||options||[0xff payload] */
-  REFOSCORE_E_OBSERVE = -15        /* inner Observe in a response to a non-Observe request (8.4) */
+  REFOSCORE_E_OBSERVE = -15,       /* inner Observe in a response to a non-Observe request (8.4) */
+  REFOSCORE_E_OPTION_TRAILING = -16 /* OSCORE option value has bytes left after the last field its flag byte announces */
 };
 const char *refoscore_strerror(int err);
 
